@@ -36,9 +36,11 @@ ConfirmsOK(o) ==
      o.confirms[i] \in (IF (i - 1) \in ToSet(w.conf_done) THEN {2}
                         ELSE IF (i - 1) \in ToSet(w.conf_begun) THEN {0, 2} ELSE {0})
 
-ChainClosed(o, x) == /\ o.stable_hash = x.stable_hash
-                     /\ o.by_height = x.by_height /\ o.by_hash = x.by_hash
-                     /\ o.vtrie = x.vtrie
+\* ref.hash are the hashes computed when the blocks were built, not database reads
+Chain(k) == SubSeq(ref.hash, 1, k + 1)
+ChainClosed(o, x) == /\ o.stable_hash = (IF o.stable_h >= 0 THEN ref.hash[o.stable_h + 1] ELSE "")
+                     /\ o.by_height = Chain(o.stable_h) /\ o.by_hash = Chain(o.stable_h)
+                     /\ o.stable_h = x.stable_h /\ o.vtrie = x.vtrie
 StateExact(o, x) == /\ o.accounts = x.accounts /\ o.code = x.code /\ o.storage = x.storage
                     /\ o.heights_ahead = 0
 CandidatesExact(o, x) == o.cands = x.cands /\ o.top = x.top
@@ -63,7 +65,10 @@ TornWal == c.tag = "wal.write" /\ c.torn > 0
 \* main thread between "batch appended to tmp.data" and "stable pointer moved" (Durability.tla: pc \in {"wal","deliver","ptr"})
 BatchWindow == c.main_last \in {"wal.write", "wal.synced", "stable.ptr.pre"}
 \* main thread between "stable pointer moved" and "context.data flushed" (pc \in {"ctxhead","ctxbody"})
-PtrWindow == c.main_last \in {"stable.ptr.set", "ctx.head", "ctx.body"}
+\* (main_last is the last hook the main thread had PASSED when the process died; when another thread died at its own
+\*  hook the main thread may already have performed the operation that follows main_last)
+PtrWindow == \/ c.main_last \in {"stable.ptr.set", "ctx.head", "ctx.body"}
+             \/ c.main_last = "stable.ptr.pre" /\ c.tag # "stable.ptr.pre"
 CtxWindow == c.main_last \in {"ctx.created", "ctx.head", "ctx.body"}
 
 (* ---------------------------------------------------------------- named deviations *)
